@@ -206,9 +206,18 @@ def run(ctx, cases_override=None):
     if bb_cases:
         bpath = write_ndjson(ctx.path("c17_bb_cases.ndjson"), bb_cases)
         btrace = ctx.path("c17_bb_trace.ndjson")
-        ctx.vh("exec-c17bb", bpath, btrace, timeout=3000)
-        bviol, bdrift, bb_rec = judge(ctx, btrace, nw, "b")
-        btr = read_ndjson(btrace)
+        try:
+            ctx.vh("exec-c17bb", bpath, btrace, timeout=3000)
+            bviol, bdrift, bb_rec = judge(ctx, btrace, nw, "b")
+            btr = read_ndjson(btrace)
+        except vlib.MachineryError as e:
+            # The BitBucket stage derives its seed comments from the real makeComments output; a tree whose grouping is
+            # already shown broken by the stages above can make that derivation impossible. Real-code violations found so
+            # far stand on their own; without any, the failure is a machinery failure as usual.
+            if not viols:
+                raise
+            print("NOTE property=C17 BitBucket stage skipped: %s" % str(e).strip().splitlines()[-1][:200])
+            bviol, bdrift, bb_rec, btr = [], [], 0, []
         for cid, v in bviol:
             v["via"] = "bb"
             viols.append({"sig": sig_of(v), "what": "run %s of the real BitBucket reporter over REST (maxComments=%s) breaks %s: reports=%s variant=%s, %d created, deleted=%s" % (
